@@ -400,6 +400,11 @@ def compare(ex, op, a, b):
         if op == "Eq":
             return r
         return (not r) if isinstance(r, bool) else z3.Not(r)
+    # numpy array of strings compared with a string (or with another such array): elementwise
+    if isinstance(a, Vec) and a.kind == "array" and isinstance(b, (str, SStr)) and op in ("Eq", "NotEq"):
+        return Vec([compare(ex, op, x, b) for x in a.items], "array")
+    if isinstance(b, Vec) and b.kind == "array" and isinstance(a, (str, SStr)) and op in ("Eq", "NotEq"):
+        return Vec([compare(ex, op, a, x) for x in b.items], "array")
     if isinstance(a, (str, SStr, bytes)) or isinstance(b, (str, SStr, bytes)):
         if type(a) is type(b) and isinstance(a, (str, bytes)):
             return CMP[op](a, b)
@@ -609,6 +614,11 @@ def getitem(ex, obj, key):
                 return r
             return Vec(r, obj.kind) if isinstance(key, SSlice) else r
         if obj.kind == "array":
+            ks = key.items if isinstance(key, Vec) else (list(key) if isinstance(key, (list, tuple)) else None)
+            if ks is not None and not all(_is_scalar(x) for x in obj.items) and \
+                    all(is_intlike(k) and not isinstance(k, bool) for k in ks):
+                # array of objects (names, index ranges) taken at an index array: every index decided by a case split
+                return Vec([obj.items[concretize_index(ex, k, len(obj.items))] for k in ks], "array")
             return nd_getitem(ex, as_ndarray(obj), key, prefer_vec=True)
         raise SymRaise("TypeError", "list indices must be integers or slices")
     if isinstance(obj, NDArray):
@@ -658,6 +668,21 @@ def set_region(ex, arr, region, val, vinit=None):
         arr._init = lambda idx: zite(region(idx), vi(idx), oi(idx))
 
 
+def concretize_index(ex, k, n):
+    """decide a symbolic index into a concrete-length container by a case split (one path per feasible value); numpy/python
+    semantics: negative values wrap, out of range raises IndexError"""
+    c = as_const(k) if is_z3(k) else k
+    if isinstance(c, int):
+        if not -n <= c < n:
+            raise SymRaise("IndexError", "index out of range")
+        return c % n if n else c
+    k3 = to_z3(k)
+    for c in range(n):
+        if ex.ctx.branch(z3.Or(k3 == c, k3 == c - n)):
+            return c
+    raise SymRaise("IndexError", "index out of range")
+
+
 def setitem(ex, obj, key, v):
     from .libnp import nd_setitem
     if isinstance(obj, list):
@@ -683,6 +708,21 @@ def setitem(ex, obj, key, v):
         if isinstance(c, int) and not isinstance(c, bool):
             if not -len(obj.items) <= c < len(obj.items):
                 raise SymRaise("IndexError", "index out of range")
+            obj.items[c] = v
+            return
+        # a[ids] = value(s) with an index array: each index is decided by a case split (path fork) when symbolic
+        if isinstance(key, (Vec, list, tuple)):
+            ks = key.items if isinstance(key, Vec) else list(key)
+            if all(is_intlike(k) and not isinstance(k, bool) for k in ks):
+                vals = v.items if isinstance(v, Vec) else (list(v) if isinstance(v, (list, tuple)) else None)
+                if vals is not None and len(vals) != len(ks):
+                    raise SymRaise("ValueError", "shape mismatch in index assignment")
+                for t, k in enumerate(ks):
+                    c = concretize_index(ex, k, len(obj.items))
+                    obj.items[c] = v if vals is None else vals[t]
+                return
+        if is_intlike(key) and not isinstance(key, bool):
+            c = concretize_index(ex, key, len(obj.items))
             obj.items[c] = v
             return
         raise Unsupported("Vec assignment with non-constant index")
